@@ -14,12 +14,17 @@ EXC_SRC = {
     "ZeroDivisionError": "ZeroDivisionError('division by zero')",
     "Custom": "type('MyCustomError', (Exception,), {})('custom-msg')",
     "SystemExit": "SystemExit(3)",
+    # exceptions that derive from BaseException only
+    "CustomBase": "type('MyBaseError', (BaseException,), {})('base-msg')",
+    "GeneratorExit": "GeneratorExit('gen-exit')",
 }
 EXC_TEXT = {
     "ValueError": ("ValueError", "boom-x"),
     "ZeroDivisionError": ("ZeroDivisionError", "division by zero"),
     "Custom": ("MyCustomError", "custom-msg"),
     "SystemExit": ("SystemExit", "3"),
+    "CustomBase": ("MyBaseError", "base-msg"),
+    "GeneratorExit": ("GeneratorExit", "gen-exit"),
 }
 
 BODY_RAISES = '''
@@ -417,8 +422,10 @@ def cases(tier):
         for n, i in ((2, 0), (2, 1), (2, 2)) if tier == "quick" else ((0, 0), (1, 0), (2, 0), (2, 1), (2, 2), (3, 2), (3, 3)):
             if kind == "body" and i > n:
                 continue
-            for exc in ("ValueError", "Custom", "ZeroDivisionError", "SystemExit"):
-                if exc == "SystemExit" and kind != "body":
+            for exc in ("ValueError", "Custom", "ZeroDivisionError", "SystemExit", "CustomBase", "GeneratorExit"):
+                if exc in ("SystemExit", "CustomBase", "GeneratorExit") and kind != "body":
+                    continue
+                if tier == "quick" and exc == "GeneratorExit":
                     continue
                 if tier == "quick" and exc in ("ZeroDivisionError",):
                     continue
